@@ -80,6 +80,8 @@ class XPathToken(Token[ta.XPathTokenType]):
         if self.label == 'axis':
             # For XPath 2.0 'attribute' multirole token ('kind test', 'axis')
             return '%s::%s' % (symbol, self[0].source)
+        elif self.label == 'kind test' and symbol == 'attribute':
+            return '%s(%s)%s' % (symbol, ', '.join(tk.source for tk in self), self.occurrence or '')
         elif symbol == '/' or symbol == '//':
             if not self:
                 return symbol
